@@ -78,7 +78,7 @@ const maxTasks = 8
 // a phase that burns more processor time than this is abandoned like one that exceeds the
 // step budget (processor time of this one-P worker process, not wall-clock time: a loaded
 // machine must not turn a slow run into a harness error)
-const maxRunCPU = 30 * time.Second
+const maxRunCPU = 90 * time.Second
 
 func cpuTime() time.Duration {
 	var ru syscall.Rusage
